@@ -765,11 +765,28 @@ def name_derivations(prog, fi, ev_fi, e: ast.AST) -> list[str]:
     from ..effects import const_str
 
     out = []
+    skip: set = set()
     for x in ast.walk(e):
+        if id(x) in skip:
+            continue
         if isinstance(x, ast.Call) and isinstance(x.func, ast.Attribute) and x.func.attr == "with_suffix" and x.args:
             sfx = const_str(prog, ev_fi, x.args[0]) or const_str(prog, fi, x.args[0])
             if sfx is not None:
-                out.append(sfx)
+                # replacing the suffix of `prefix + ".ext"` (a placeholder extension appended first) keeps the dots of
+                # the prefix: the net derivation appends
+                recv = x.func.value
+                appended = False
+                for y in ast.walk(recv):
+                    t_ = None
+                    if isinstance(y, ast.JoinedStr) and len(y.values) >= 2 and isinstance(y.values[-1], ast.Constant) and isinstance(y.values[-2], ast.FormattedValue):
+                        t_ = y.values[-1].value
+                    elif isinstance(y, ast.BinOp) and isinstance(y.op, ast.Add) and not isinstance(y.left, ast.Constant):
+                        t_ = const_str(prog, ev_fi, y.right) or const_str(prog, fi, y.right)
+                    if isinstance(t_, str) and t_.startswith(".") and t_.count(".") == 1:
+                        appended = True
+                out.append(("+" if appended else "") + sfx)
+                if appended:
+                    skip.update(id(y) for y in ast.walk(recv))
         tail = None
         if isinstance(x, ast.JoinedStr) and len(x.values) >= 2 and isinstance(x.values[-1], ast.Constant) and isinstance(x.values[-2], ast.FormattedValue):
             tail = x.values[-1].value
